@@ -1,5 +1,5 @@
 (* correspondence glue for C16: one constructor per decoder entry point *)
-From V Require Export Base.Hex Store.Codec Store.AppMeta Wire.PgMsg Wire.Stream Store.OpenTime.
+From V Require Export Base.Hex Store.Codec Store.AppMeta Wire.PgMsg Wire.Stream Store.OpenTime SQLLex.Lexer.
 
 Definition txmd_eqb (a b : txmd) : bool :=
   opt_eqb N.eqb (md_trunc a) (md_trunc b) && opt_eqb bytes_eqb (md_extra a) (md_extra b).
@@ -165,7 +165,9 @@ Inductive case :=
 (* ahtree.OpenWith: commit log size, its last entry, sizes of the payload and digest logs *)
 | COtAhOpen (clog_size : Z) (entry : bytes) (pfile dfile : Z) (out : res (Z * Z))
 (* ahtree.DataAt for a leaf whose commit-log entry is `entry`: returned an error?, bytes allocated *)
-| COtAhData (plog_size : Z) (entry : bytes) (errored : bool) (allocated : N).
+| COtAhData (plog_size : Z) (entry : bytes) (errored : bool) (allocated : N)
+(* sql lexer.Lex called until the end of a text without NUL bytes: bytes taken after each call *)
+| CSqlLex (text : bytes) (positions : list N).
 
 Definition case_ok (c : case) : bool :=
   match c with
@@ -208,5 +210,6 @@ Definition case_ok (c : case) : bool :=
   | COtAhData ps e errored a =>
       let m := ah_data_at ahtree_open_is_fixed ps e in
       (match fst m with Ok _ => true | Err _ => errored | Panic => false end) && alloc_ok (snd m) a
+  | CSqlLex t ps => opt_eqb (list_eqb N.eqb) (lex_positions t) (Some ps)
   end.
 
